@@ -383,7 +383,7 @@ def fingerprint(items=None):
         for name, c in cls.controllers.items():
             vt = c.value_type
             ctls.append((name, c.number, repr(describe_value_type(vt)) if not type(c).__name__.startswith("UserDefined") else "proxy", repr(c.default), bool(c._attached)))
-        opts = [(n, repr(o)) for n, o in sorted(cls.options.items())]
+        opts = [(n, repr(o), tuple(getattr(o, "exclusive_of", ()) or ()), getattr(o, "min", None), getattr(o, "max", None), getattr(o, "inverted", None), getattr(o, "default", None)) for n, o in sorted(cls.options.items())]
         out.append((mtype, cls.__name__, getattr(cls, "mgroup", None), getattr(cls, "default_flags", None), getattr(cls, "flags", None), getattr(cls, "options_chnm", None), tuple(ctls), tuple(opts)))
     return tuple(out)
 
@@ -412,6 +412,25 @@ def run_after_use(ctx, desc):
         read_sunvox_file(f).read()
         compare("loading and saving %s" % os.path.basename(f))
     ctx.label("after_fixtures")
+
+    # constructions and assignments that the library refuses (wrong types, out-of-range values, unknown keywords)
+    import rv.modules as _m
+
+    for mtype, cls in sorted(_m.MODULE_CLASSES.items()):
+        names = list(cls.options) + list(cls.controllers)[:3] + ["no_such_keyword"]
+        for name in names:
+            for bad in (None, "2", 2.5, [], object(), -(2**40), 2**40):
+                ctx.case()
+                try:
+                    cls(**{name: bad})
+                except Exception:  # noqa: BLE001 - refusing is fine; what it leaves behind is looked at
+                    pass
+                try:
+                    setattr(cls(), name, bad)
+                except Exception:  # noqa: BLE001
+                    pass
+        compare("refused constructions / assignments of %s" % cls.__name__)
+    ctx.label("after_refused_constructions")
 
     def body(case):
         ctx.case()
